@@ -132,7 +132,8 @@ func VH23a_dialer() {
 func VH23b_listener() {
 	lab := "C15/ws-listener"
 	vws.Reset()
-	sock := vp.New("pair")
+	// a symmetric pattern and two asymmetric ones (own name and peer name differ)
+	sock := vp.New([]string{"pair", "rep", "pub"}[verif.Choice("proto", 3)])
 	maxrx := verif.Int("maxrx")
 	verif.Assume(verif.And(maxrx >= 0, maxrx <= 1<<20))
 	l, err := sock.NewListener("ws://127.0.0.1:80/sp", map[string]interface{}{mangos.OptionMaxRecvSize: maxrx})
@@ -148,13 +149,32 @@ func VH23b_listener() {
 		return
 	}
 	// the origin check may be configured on the listener, before or after it starts, to either value
-	co := verif.Choice("check-origin", 4) // 0: untouched, 1: false before Listen, 2: true before Listen, 3: false after Listen
-	if co == 1 || co == 2 {
-		verif.Assert(l.SetOption(ws.OptionWebSocketCheckOrigin, co == 2) == nil, "C19/ws-listener/set-check-origin")
+	// 0: untouched, 1: false before Listen, 2: true before Listen, 3: false after Listen, 4: false then true
+	// before Listen, 5: false before and true after Listen
+	co := verif.Choice("check-origin", 6)
+	checks := true // the default: foreign origins are refused
+	setCO := func(v bool) {
+		verif.Assert(l.SetOption(ws.OptionWebSocketCheckOrigin, v) == nil, "C19/ws-listener/set-check-origin")
+		checks = v
+	}
+	switch co {
+	case 1, 5:
+		setCO(false)
+	case 2:
+		setCO(true)
+	case 4:
+		setCO(false)
+		setCO(true)
 	}
 	verif.Assert(l.Listen() == nil, lab+"/listen")
-	if co == 3 {
-		verif.Assert(l.SetOption(ws.OptionWebSocketCheckOrigin, false) == nil, "C19/ws-listener/set-check-origin-while-listening")
+	switch co {
+	case 3:
+		setCO(false)
+	case 5:
+		setCO(true)
+	}
+	if gv, gerr := l.GetOption(ws.OptionWebSocketCheckOrigin); gerr == nil {
+		verif.Assert(gv == interface{}(checks), "C19/ws-listener/get-check-origin-returns-set-value")
 	}
 	self := sock.Info().SelfName + ".sp.nanomsg.org"
 	offers := [][]string{{self}, {"other.sp.nanomsg.org"}, {}, {"x", self}, {sock.Info().SelfName + ".sp.nanomsg.orgx"}, {"rep.sp.nanomsg.org"}}
@@ -188,13 +208,17 @@ func VH23b_listener() {
 			}
 		}
 		verif.Assert(named, lab+"/handshake-answer-does-not-name-the-sp-subprotocol")
+		// the origin check in force is the one last set
+		verif.Assert(vws.UpgradeAllowsForeignOrigin == !checks, "C19/ws-listener/origin-check-setting-not-in-force")
 		verif.Assert(st.LimitSet && st.ReadLimit == int64(maxrx), "C16/ws-listener/read-limit-not-applied")
 		verif.Reach("accepted")
 		// traffic: one binary frame per message
-		body := verif.Bytes("body", 2)
-		verif.Assert(sock.Send(body) == nil, lab+"/send")
-		verif.Quiesce()
-		verif.Assert(len(st.Frames) == 1 && st.Frames[0].Type == websocket.BinaryMessage && verif.BytesEq(st.Frames[0].Data, body), lab+"/frame")
+		if sock.Info().SelfName == "pair" {
+			body := verif.Bytes("body", 2)
+			verif.Assert(sock.Send(body) == nil, lab+"/send")
+			verif.Quiesce()
+			verif.Assert(len(st.Frames) == 1 && st.Frames[0].Type == websocket.BinaryMessage && verif.BytesEq(st.Frames[0].Data, body), lab+"/frame")
+		}
 	} else {
 		verif.Assert(vws.Upgrades == 0, lab+"/connection-without-the-sp-subprotocol-accepted")
 		verif.Assert(len(vws.HTTPErrors) == 1 && vws.HTTPErrors[0].Code == http.StatusBadRequest, lab+"/no-bad-request-answer")
